@@ -83,6 +83,7 @@ func (t *T) String() string {
 type TermEnv struct {
 	Phi  map[*ssa.Phi]ssa.Value
 	Sub  map[ssa.Value]ssa.Value // inlined helpers: parameter -> argument, call result -> returned value
+	SubT map[ssa.Value]*T        // inlined helpers: call result -> its term, fixed at the call
 	memo map[ssa.Value]*T
 }
 
@@ -129,6 +130,10 @@ func instrOrdinal(v ssa.Value) string {
 
 func (e *TermEnv) Term(v ssa.Value) *T {
 	if t, ok := e.memo[v]; ok {
+		return t
+	}
+	if t, ok := e.SubT[v]; ok {
+		e.memo[v] = t
 		return t
 	}
 	if s, ok := e.Sub[v]; ok {
